@@ -120,7 +120,9 @@ def jalali_string(y, m, d, sp, hm):
         s = "%s %s %d" % (day, mon, y)
         if sp.get("weekday"):
             s = J_WEEKDAYS[g.weekday()] + " " + s
-    if hm is not None:
+    if hm is not None and len(hm) == 4:
+        s += " %02d:%02d:%02d.%06d" % tuple(hm)  # seconds and a fraction: "any clock time in the string preserved"
+    elif hm is not None:
         if sp.get("timeform") == 1:
             s += " ساعت %02d و %02d دقیقه" % (hm[0], hm[1])
         else:
@@ -135,7 +137,9 @@ def hijri_string(y, m, d, sp, hm):
         s = "%02d-%02d-%d" % (d, m, y)
     else:
         s = sp["sep"].join([str(y), ("%02d" % m) if sp["pad"] else str(m), ("%02d" % d) if sp["pad"] else str(d)])
-    if hm is not None:
+    if hm is not None and len(hm) == 4:
+        s += " %02d:%02d:%02d.%06d" % tuple(hm)
+    elif hm is not None:
         if sp.get("ampm"):
             h12 = hm[0] % 12 or 12
             s += " %d:%02d %s" % (h12, hm[1], "صباحاً" if hm[0] < 12 else "مساءً")
@@ -178,6 +182,8 @@ def check_case(case):
     if hm is not None:
         cls.append("with-time")
     want = dt.datetime(*want_date, *(hm or (0, 0)))
+    if hm is not None and len(hm) == 4:
+        cls.append("with-fractional-seconds")
     nontrivial = d >= 29 or m == 12 or hm is not None or sp.get("kind") == "named" or sp.get("pdigits")
     key = (cal, y, m, d, tuple(sorted((k, v) for k, v in sp.items())), hm is not None) if nontrivial else None
     r = Cal(s).get_date()
@@ -283,6 +289,8 @@ def _boundary_years(ctx):
                                 continue
                             h = derive_seed(ctx.seed, "b", cal, y, m, d, i)
                             hm = None if h % 3 else [(h >> 24) % 24, (h >> 32) % 60]
+                            if hm is not None and (h >> 40) % 2:
+                                hm = hm + [(h >> 44) % 60, [0, 1, 250000, 999999, 500000, 12345][(h >> 50) % 6]]
                             yield {"cal": cal, "ymd": [y, m, d], "sp": sp, "hm": hm, "pair": False}
     return it
 
